@@ -402,30 +402,51 @@ func runC12(r *Report) {
 	// expects one block too many whenever the dictionary is an exact multiple of 16 KiB: it never completes.
 	if rm := p.Func("tor", "resizeMetadata"); rm != nil {
 		nB := 0
-		allInstrs(rm, func(in ssa.Instruction) {
-			ms, ok := in.(*ssa.MakeSlice)
-			if !ok {
-				return
+		// wherever the per-block table (Torrent.infoRequested) is made: resizeMetadata, or a helper it shares with
+		// the reset paths
+		for _, bf := range p.SrcFuncs() {
+			if relPkg(bf) != "tor" {
+				continue
 			}
-			kind, num, den := divFormOf(ms.Len)
-			if kind == divOther || num == nil {
-				// a helper computing the count (metadataChunks(size)): look at what it returns
-				if c, isC := stripIntConv(ms.Len).(*ssa.Call); isC {
-					if h := c.Call.StaticCallee(); h != nil && h.Blocks != nil && relPkg(h) == "tor" {
-						for _, ret := range returnsOf(h) {
-							kind, num, den = divFormOf(retResults(ret)[0])
+			allInstrs(bf, func(in ssa.Instruction) {
+				ms, ok := in.(*ssa.MakeSlice)
+				if !ok {
+					return
+				}
+				if bf != rm {
+					toTable := false
+					for _, ref := range *ms.Referrers() {
+						if st, isSt := ref.(*ssa.Store); isSt && st.Val == ssa.Value(ms) {
+							if fa, isFA := st.Addr.(*ssa.FieldAddr); isFA && fieldVar(fa) != nil && fieldVar(fa).Name() == "infoRequested" {
+								toTable = true
+							}
+						}
+					}
+					if !toTable {
+						return
+					}
+					r.Fn(bf)
+				}
+				kind, num, den := divFormOf(ms.Len)
+				if kind == divOther || num == nil {
+					// a helper computing the count (metadataChunks(size)): look at what it returns
+					if c, isC := stripIntConv(ms.Len).(*ssa.Call); isC {
+						if h := c.Call.StaticCallee(); h != nil && h.Blocks != nil && relPkg(h) == "tor" {
+							for _, ret := range returnsOf(h) {
+								kind, num, den = divFormOf(retResults(ret)[0])
+							}
 						}
 					}
 				}
-			}
-			if kind == divOther {
-				return // the buffer itself (make([]byte, size)), not a count
-			}
-			nB++
-			k, _ := constInt(den)
-			r.Check(kind == divCeil && k == 16*1024, "R3", "resizeMetadata/block-count-is-ceil", ms.Pos(), "one slot per started 16 KiB of metadata (ceil)",
-				fmt.Sprintf("the number of metadata blocks is computed as %s (%s): when the info dictionary is an exact multiple of 16 KiB the client waits for a block no honest peer has, and the metadata never completes", exprStr(ms.Len), kind))
-		})
+				if kind == divOther {
+					return // the buffer itself (make([]byte, size)), not a count
+				}
+				nB++
+				k, _ := constInt(den)
+				r.Check(kind == divCeil && k == 16*1024, "R3", "resizeMetadata/block-count-is-ceil", ms.Pos(), "one slot per started 16 KiB of metadata (ceil)",
+					fmt.Sprintf("the number of metadata blocks is computed as %s (%s): when the info dictionary is an exact multiple of 16 KiB the client waits for a block no honest peer has, and the metadata never completes", exprStr(ms.Len), kind))
+			})
+		}
 		r.Sentinel("R3.blocks", nB, 1)
 	}
 	// ---- R4
